@@ -197,13 +197,18 @@ def T (s : St) (t : Dense) (axes : List Int) : Res (St × Dense) := do
     | none => pure (s, { t with old := some t.ap, tw := some axes, ap := transform })
     | some _ =>
       if isVector t.shape then pure (s, t.ut) else
-      -- "is this the reverse of the previous transpose?" — decided by comparing shapes
-      let osh := t.oshape
-      let isReversed := (List.range osh.length).all (fun i => transform.shape[i]? == osh[i]?)
+      -- "is this the undo of the pending transpose?": transposeWith[axes[i]] == i for all i
+      let tw := t.tw.getD []
+      let isReversed := axes.length == tw.length &&
+        (List.range axes.length).all (fun i => match axes[i]? with
+          | some a => decide (0 ≤ a) && getI? tw a == some (Int.ofNat i)
+          | none => false)
       if isReversed then pure (s, t.ut) else
       let (s, t') ← transpose s t
-      -- NB: `transform` was computed from the AP *before* the physical transpose
-      pure (s, { t' with old := some t'.ap, tw := some axes, ap := transform })
+      -- the data has moved: the transform is recomputed from the materialised pattern
+      match ← t'.ap.T axes with
+      | .noop _ _ => pure (s, t')
+      | .ok transform axes => pure (s, { t' with old := some t'.ap, tw := some axes, ap := transform })
 
 /-- fresh tensor holding `cells`, default strides for `col` -/
 def fresh (s : St) (dt : String) (sh : Shape) (col : Bool) (cells : Array Val) (eng : Eng := .std) : St × Dense :=
